@@ -13,13 +13,17 @@ THEOREMS = ['C05_bounded_native_is_spec', 'C05_integer_native_is_spec', 'C05_uns
             'C05_text_null_verdicts_agree', 'C05_text_paths_total', 'C05_datetime_native_is_spec', 'C05_datetime_naive_rule',
             'C05_datetime_verdict_of_instant', 'C05_datetime_lex_instant', 'C05_date_native_is_spec', 'C05_time_native_is_spec',
             'C05_datetime_leaf_spec', 'C05_date_leaf_spec', 'C05_time_leaf_spec', 'C05_range_paths_agree',
-            'C05_array_occurrence_is_spec', 'C05_flat_array_is_spec', 'C05_array_verdicts_agree']
+            'C05_array_occurrence_is_spec', 'C05_flat_array_is_spec', 'C05_array_verdicts_agree',
+            'C05_xml_nil_verdict', 'C05_xsi_target_keeps_declared', 'C05_xsi_target_named', 'C05_xsi_target_total',
+            'C05_enum_readers_are_spec', 'C05_enum_readers_agree', 'C05_decimal_native_is_spec', 'C05_decimal_verdict_of_number',
+            'C05_decimal_text_leaf_spec', 'C05_decimal_number_is_text']
 
 INT_CLASSES = {'Integer8': (True, 8), 'Integer16': (True, 16), 'Integer32': (True, 32), 'Integer64': (True, 64),
                'UnsignedInteger8': (False, 8), 'UnsignedInteger16': (False, 16), 'UnsignedInteger32': (False, 32),
                'UnsignedInteger64': (False, 64), 'Integer': None, 'UnsignedInteger': (False, None)}
 TNS = 'tns'
 XSI = 'http://www.w3.org/2001/XMLSchema-instance'
+XSD = 'http://www.w3.org/2001/XMLSchema'
 PROTOS = ('xml', 'soap11', 'json', 'yaml', 'msgpack', 'http')
 
 
@@ -104,11 +108,13 @@ class Wv(object):
     """a leaf value with its wire forms: `text` for XML / SOAP / HttpRpc (None: no text form), `doc` for
     JSON / YAML / MessagePack (NO: no document form), `nil` for an explicit null"""
 
-    def __init__(self, text=None, doc=NO, nil=False):
-        self.text, self.doc, self.nil = text, doc, nil
+    def __init__(self, text=None, doc=NO, nil=False, xsi=None):
+        # xsi: (namespace, type name) written as an xsi:type attribute on the XML / SOAP element
+        self.text, self.doc, self.nil, self.xsi = text, doc, nil, xsi
 
     def __repr__(self):
-        return 'Wv(%r, %r%s)' % (self.text, self.doc, ', nil=True' if self.nil else '')
+        return 'Wv(%r, %r%s%s)' % (self.text, self.doc, ', nil=True' if self.nil else '',
+                                   ', xsi=%r' % (self.xsi,) if self.xsi else '')
 NULL = Wv(None, None, nil=True)
 
 _NS = {}
@@ -135,10 +141,14 @@ def mk_type(expr):
 class Harness(object):
     """one generated service around the type under test, at every nesting position"""
 
-    def __init__(self, T, multi=None, array=None):
+    def __init__(self, T, multi=None, array=None, extra_types=(), xml_kwargs=None):
         from spyne import Application, rpc, ServiceBase, ComplexModel, Array, Unicode, XmlAttribute
         from spyne.model.complex import ComplexModelMeta
+        import spyne.model.primitive as P
         self.T = T
+        self.xml_kwargs = dict(xml_kwargs or {})
+        # types that only have to be known to the interface (targets of xsi:type)
+        known = [P.Unicode, P.Integer, P.Boolean, P.Decimal, P.Double, P.DateTime, P.Date, P.Time] + list(extra_types)
         self.calls = calls = []
         W = ComplexModelMeta('W', (ComplexModel,), {'__namespace__': TNS, '_type_info': [('v', T)]})
         WA = ComplexModelMeta('WA', (ComplexModel,), {'__namespace__': TNS, '_type_info': [('v', XmlAttribute(T))]})
@@ -147,6 +157,7 @@ class Harness(object):
         AT = array if array is not None else Array(T)
         WL = ComplexModelMeta('WL', (ComplexModel,), {'__namespace__': TNS, '_type_info': [('l', AT)]})
         self.item_tag = list(AT._type_info.keys())[0]
+        KN = ComplexModelMeta('KN', (ComplexModel,), {'__namespace__': TNS, '_type_info': [('k%d' % i, t) for i, t in enumerate(known)]})
 
         class S(ServiceBase):
             @rpc(T, _returns=Unicode)
@@ -176,6 +187,10 @@ class Harness(object):
             @rpc(WM, _returns=Unicode)
             def nmulti(ctx, x):
                 calls.append(('nmulti', None if x is None or x.v is None else list(x.v))); return 'ok'
+
+            @rpc(KN, _returns=Unicode)
+            def known_types(ctx, x):
+                calls.append(('known_types', x)); return 'ok'
         self.S = S
         self.apps = {}
 
@@ -188,8 +203,9 @@ class Harness(object):
         from spyne.protocol.msgpack import MessagePackDocument
         from spyne.protocol.http import HttpRpc
         if proto not in self.apps:
+            kw = self.xml_kwargs if proto in ('xml', 'soap11') else {}
             inp = {'xml': XmlDocument, 'soap11': Soap11, 'json': JsonDocument, 'yaml': YamlDocument,
-                   'msgpack': MessagePackDocument, 'http': HttpRpc}[proto](validator='soft')
+                   'msgpack': MessagePackDocument, 'http': HttpRpc}[proto](validator='soft', **kw)
             self.apps[proto] = Application([self.S], TNS, in_protocol=inp, out_protocol=JsonDocument())
         return self.apps[proto]
 
@@ -200,7 +216,7 @@ class Harness(object):
     def xml_body(self, meth, payload, soap):
         from lxml import etree
         ns = '{%s}' % TNS
-        root = etree.Element(ns + meth, nsmap={None: TNS, 'xsi': XSI})
+        root = etree.Element(ns + meth, nsmap={None: TNS, 'xsi': XSI, 'xs': XSD, 'tns0': TNS})
 
         def elem(parent, tag, v):
             e = etree.SubElement(parent, ns + tag)
@@ -208,6 +224,8 @@ class Harness(object):
                 e.set('{%s}nil' % XSI, 'true')
             else:
                 e.text = wire_text(v)
+            if isinstance(v, Wv) and v.xsi:
+                e.set('{%s}type' % XSI, '%s:%s' % ({XSD: 'xs', TNS: 'tns0'}[v.xsi[0]], v.xsi[1]))
             return e
 
         def leaf(parent, tag, p):
@@ -1058,7 +1076,8 @@ def same_native(a, b):
     except Exception:
         return False
 
-def expect(check, h, fam, tdesc, texpr, shape, proto, pos, payload, want, native=NOCHECK, strict=True, extra=None):
+def expect(check, h, fam, tdesc, texpr, shape, proto, pos, payload, want, native=NOCHECK, strict=True, extra=None,
+           allowed=None):
     """one request against the oracle.  strict: the canonical wire form of a logical request - accepted iff it
     conforms.  lenient (an alternative document form, e.g. a MessagePack bin string or a JSON number where
     Spyne itself writes text): it may be read as the value or refused, but never crash, never be accepted when
@@ -1079,6 +1098,12 @@ def expect(check, h, fam, tdesc, texpr, shape, proto, pos, payload, want, native
         if pos in ('arr', 'narr', 'multi', 'nmulti') and payload[0] == 'items' and len(payload[1]) == 1 and not isinstance(native, list):
             delivered = delivered[0] if isinstance(delivered, list) and len(delivered) == 1 else NOCHECK
         ok = same_native(delivered, native)
+    if ok and got == 'accept' and allowed is not None:
+        delivered = res[1]
+        if pos in ('arr', 'narr', 'multi', 'nmulti') and isinstance(delivered, list) and len(delivered) == 1:
+            delivered = delivered[0]
+        ok = any((delivered is a) or (a is not None and delivered is not None and type(delivered) is type(a) and same_native(delivered, a))
+                 for a in allowed)
     if not ok:
         rp = {'family': fam, 'type_expr': texpr, 'protocol': proto, 'position': pos, 'payload': repr(payload)}
         rp.update(extra or {})
@@ -1403,6 +1428,336 @@ def family_null_members(check, tier):
     check.sample({'family': 'null / absent object and array members', 'protocols': ['xml', 'soap11', 'json', 'yaml', 'msgpack']})
 
 
+# ------------------------------------------------------------------ correspondences of the step functions (Gen/C05Steps.v)
+STEP_IMPORTS = ('From SpyneV Require Import Base.Prelude Base.Ext Wire.Decimal C05.Facets C05.StepTypes Gen.FacetTypes Gen.C05Steps C05.StepModel.\n'
+                'Definition ozeqb (a b : option Z) := match a, b with Some x, Some y => Z.eqb x y | None, None => true | _, _ => false end.\n'
+                'Definition choice_eqb (a b : xsi_choice) := match a, b with Declared, Declared | Named, Named => true | _, _ => false end.')
+
+def g_dec(d):
+    t = d.as_tuple()
+    return '(mkdec %s %d %s)' % (gbool(bool(t.sign)), int(''.join(map(str, t.digits)) or '0'), gz(t.exponent))
+
+def g_dx(d):
+    if d.is_infinite():
+        return 'DPosInf' if d > 0 else 'DNegInf'
+    return '(DFin %s)' % g_dec(d)
+
+def family_step_corr(check, tier):
+    """the four generated decision procedures against the functions they were translated from"""
+    import spyne.model.primitive as P
+    from spyne import ComplexModel, Array
+    from spyne.model.complex import ComplexModelMeta
+    from spyne.protocol.xml import XmlDocument
+    from spyne.protocol.json import JsonDocument
+    from spyne.protocol.yaml import YamlDocument
+    from spyne.protocol.msgpack import MessagePackDocument
+    from lxml import etree
+    D = _dec.Decimal
+    rng = check.rng
+    # ---- xml_nil
+    nc = []
+    for soft in (True, False):
+        for repl in (True, False):
+            xml = XmlDocument(validator='soft' if soft else None, replace_null_with_default=repl)
+            for nill in (True, False):
+                for default in (None, 5, 0, rng.randint(-100, 100)):
+                    T = P.Integer.customize(nillable=nill, default=default)
+                    for nilv in ('true', '1'):
+                        el = etree.Element('x')
+                        el.set('{%s}nil' % XSI, nilv)
+                        if rng.random() < .3:
+                            el.text = '7'
+                        o = observe(xml.from_element, None, T, el)
+                        nc.append(('(%s, %s, %s, %s, %s)' % (gbool(soft), gbool(nill), gbool(repl), gopt(default, gz), gout(o, lambda v: gopt(v, gz))),
+                                   'nil soft=%s nillable=%s replace=%s default=%r -> %r' % (soft, nill, repl, default, o)))
+                        check.count(('nilcorr', soft, repl, nill, default, nilv))
+    lib.correspond(check, 'xml_nil', STEP_IMPORTS, 'bool * bool * bool * option Z * out (option Z)',
+                   '(fun c => match c with (s, n, r, d, o) => out_eqb ozeqb (xml_nil s n r d) o end)', nc)
+    # ---- xsi_target
+    A = ComplexModelMeta('A', (ComplexModel,), {'__namespace__': TNS, '_type_info': [('a', P.Integer)]})
+    B = ComplexModelMeta('B', (A,), {'__namespace__': TNS, '_type_info': [('b', P.Integer)]})
+    C = ComplexModelMeta('C', (ComplexModel,), {'__namespace__': TNS, '_type_info': [('c', P.Integer)]})
+    pool = [P.Unicode, P.Unicode(max_len=3), P.Unicode(pattern='[a-z]+', type_name='S1'), P.Integer, P.Integer(ge=0, le=9),
+            P.Integer8, P.Integer8(le=5), P.Decimal, P.Decimal(ge=0), P.Double, P.Double(le=5.0), P.Boolean, P.DateTime, P.Date,
+            P.DateTime(type_name='D1'), P.Uuid, P.AnyUri, A, B, C, A.customize(min_occurs=1), B.customize(nillable=False),
+            Array(P.Integer), Array(P.Unicode), Array(A), Array(P.Integer(ge=0)), mk_type(ENUM_EXPR)]
+    for t in pool:
+        try:
+            t.resolve_namespace(t, TNS)
+        except Exception:
+            pass
+    xc = []
+    pairs = [(a, b) for a in pool for b in pool]
+    if tier == 'quick':
+        pairs = rng.sample(pairs, 260)
+    for cls, new in pairs:
+        sup = getattr(cls, '__orig__', None) or cls
+        sub = getattr(new, '__orig__', None) or new
+        try:
+            nd = (new.get_namespace(), new.get_type_name()) != (cls.get_namespace(), cls.get_type_name())
+        except Exception:
+            continue
+        q = ('{| xq_same_orig := %s; xq_sup_is_array := %s; xq_names_differ := %s; xq_sup_is_complex := %s; xq_sub_extends_sup := %s |}'
+             % (gbool(sub is sup), gbool(issubclass(sup, Array)), gbool(nd), gbool(issubclass(sup, ComplexModel)), gbool(issubclass(sub, sup))))
+        o = observe(XmlDocument._get_xsi_target, cls, new, 'x:y')
+        if o[0] == 'ok':
+            o = ('ok', 'Declared' if o[1] is cls else 'Named' if o[1] is new else None)
+            if o[1] is None:
+                check.mismatch('xsi_target', '_get_xsi_target(%r, %r) returned a third class' % (cls, new))
+                continue
+        xc.append(('(%s, %s)' % (q, gout(o, lambda v: v)), '_get_xsi_target(%s, %s) -> %r' % (cls.__name__, new.__name__, o)))
+        check.count(('xsicorr', repr(cls), repr(new)))
+    lib.correspond(check, 'xsi_target', STEP_IMPORTS, 'xsi_query * out xsi_choice',
+                   '(fun c => out_eqb choice_eqb (xsi_target (fst c)) (snd c))', xc)
+    # ---- enum readers: the delivered object is named by the declared value it IS, anything else by a marker
+    E = mk_type(ENUM_EXPR)
+    names = {id(getattr(E, v)): v for v in E.__values__}
+    lits = list(E.__values__) + ENUM_HOSTILE + rng.sample([n for n in dir(E)], 12)
+    ec = {'enum_from_bytes': [], 'enum_from_element': []}
+    for soft in (True,):                  # C05 is about validator='soft'
+        js = JsonDocument(validator='soft' if soft else None)
+        xml = XmlDocument(validator='soft' if soft else None)
+        for nill in (True, False):
+            T = E if nill else E.customize(nillable=False)
+            for lit in lits + [None]:
+                el = etree.Element('x')
+                el.text = lit if lit else None
+                src = {'enum_from_bytes': lit, 'enum_from_element': el.text}
+                for fn, o in (('enum_from_bytes', observe(js.enum_base_from_bytes, T, lit) if lit is not None else None),
+                              ('enum_from_element', observe(xml.enum_from_element, None, T, el))):
+                    if o is None:
+                        continue
+                    if o[0] == 'ok':
+                        o = ('ok', names.get(id(o[1]), '<not a member>'))
+                    ec[fn].append(('(%s, %s, %s, %s)' % (gbool(soft), gbool(nill), gopt(src[fn], gtext), gout(o, gtext)),
+                                   '%s soft=%s %r -> %r' % (fn, soft, src[fn], o)))
+                    check.count(('enumcorr', fn, soft, nill, lit))
+    gvals = glist([gtext(v) for v in E.__values__])
+    for fn in ec:
+        lib.correspond(check, fn, STEP_IMPORTS, 'bool * bool * option text * out text',
+                       '(fun c => match c with (s, n, ov, o) => out_eqb text_eqb (%s (fun v : text => v) s n %s ov) o end)' % (fn, gvals), ec[fn])
+    # ---- Decimal: text path and number path
+    xml = XmlDocument(validator='soft')
+    hiers = [JsonDocument(validator='soft'), YamlDocument(validator='soft'), MessagePackDocument(validator='soft')]
+    tcs, ncs = [], []
+    bounds = ['0.1', '0.3', '0.7', '19.99', '-0.1', '1.005', '100', '2.675', '0']
+    for _ in range(4 if tier == 'quick' else 40):
+        dg = rng.randint(1, 6)
+        bounds.append(str(D(rng.randint(-10 ** (dg + 2), 10 ** (dg + 2))).scaleb(-dg)))
+    for b in bounds:
+        bd = D(b)
+        kw = {}
+        facet = rng.choice(['ge', 'gt', 'le', 'lt'])
+        kw[facet] = bd
+        if rng.random() < .3:
+            kw[rng.choice(['le', 'lt']) if facet in ('ge', 'gt') else rng.choice(['ge', 'gt'])] = bd + rng.choice([1, -1, 0]) * D('0.5')
+        if rng.random() < .15:
+            kw['values'] = [bd, bd + 1]
+        T = P.Decimal.customize(**kw)
+        At = T.Attributes
+        ga = ('{| r4_nillable := %s; r4_gt := %s; r4_ge := %s; r4_lt := %s; r4_le := %s; r4_values := %s |}' % (
+            gbool(At.nillable), g_dx(At.gt), g_dx(At.ge), g_dx(At.lt), g_dx(At.le), glist([g_dx(v) for v in sorted(At.values)])))
+        gm = '(Fin %s)' % gz(At.max_str_len)
+        ulp = D(1).scaleb(min(bd.as_tuple().exponent, 0))
+        for vd in (bd, bd - ulp, bd + ulp, bd + ulp / 1000, bd.normalize(), bd + 1):
+            text = format(vd, 'f')
+            texts = [text, '+' + text, ' ' + text, text + '0' if '.' in text else text + '.0', str(vd.normalize())]
+            for t in texts + rng.sample(['NaN', 'abc', '', '1e3', '1.5.', '--1', 'Infinity', '.5', '5.'], 2):
+                el = etree.Element('x')
+                el.text = t if t else None
+                outs = [('xml', observe(xml.from_element, None, T, el))] if t else []
+                hp = rng.choice(hiers)
+                outs.append(('doc', observe(hp._from_dict_value, None, 'k', T, t, hp.validator)))
+                for where, o in outs:
+                    if where == 'doc' and t == '':
+                        continue        # empty_is_none is not part of this path's model
+                    go = gout(o, g_dec) if not (o[0] == 'ok' and o[1] is None) else None
+                    if go is None:
+                        continue
+                    tcs.append(('(%s, %s, %s, %s)' % (ga, gm, gtext(t), go), 'Decimal%r %s text %r -> %r' % (kw, where, t, o)))
+                    check.count(('deccorr', 'text', str(kw), where, t))
+            nums = [float(text)]
+            if vd == vd.to_integral_value():
+                nums.append(int(vd))
+            for v in nums:
+                hp = rng.choice(hiers)
+                o = observe(hp._from_dict_value, None, 'k', T, v, hp.validator)
+                exact = D(v)
+                ncs.append(('(%s, %s, %s, %s, %s)' % (ga, gm, gtext(str(v)), g_dec(exact), gout(o, g_dec)),
+                            'Decimal%r number %r -> %r' % (kw, v, o)))
+                check.count(('deccorr', 'number', str(kw), repr(v)))
+    lib.correspond(check, 'decimal_text_leaf', STEP_IMPORTS, 'rng4_attrs dx * ext * text * out dec',
+                   '(fun c => match c with (a, m, s, o) => out_eqb dec_eqb (decimal_text_leaf a m s) o end)', tcs,
+                   show='(fun c : rng4_attrs dx * ext * text * out dec => match c with (a, m, s, o) => decimal_text_leaf a m s end)')
+    lib.correspond(check, 'decimal_number_leaf', STEP_IMPORTS, 'rng4_attrs dx * ext * text * dec * out dec',
+                   '(fun c => match c with (a, m, s, e, o) => out_eqb dec_eqb (decimal_number_leaf (fun _ : unit => s) (fun _ : unit => e) a m tt) o end)', ncs,
+                   show='(fun c : rng4_attrs dx * ext * text * dec * out dec => match c with (a, m, s, e, o) => decimal_number_leaf (fun _ : unit => s) (fun _ : unit => e) a m tt end)')
+    check.sample({'family': 'step function correspondence', 'xml_nil': len(nc), 'xsi_target': len(xc),
+                  'enum': sum(len(v) for v in ec.values()), 'decimal_text': len(tcs), 'decimal_number': len(ncs)})
+
+
+# ------------------------------------------------------------------ round 2: decimal bounds, enum, xsi:type, nil x default
+def family_decimal_bounds(check, tier):
+    """Decimal range facets whose bounds are not binary fractions (0.1, 0.3, 19.99 ...): the value exactly ON the
+    bound and one unit in the last place beside it, sent as text (every protocol) and as a JSON / YAML / MessagePack
+    NUMBER.  Spyne reads such a number through its shortest text, so the number 0.3 is the decimal 0.3 and gets the
+    verdict the text '0.3' gets over XML - not the verdict of its binary expansion 0.29999999999999998889..."""
+    D = _dec.Decimal
+    rng = check.rng
+    bounds = ['0.1', '0.3', '0.7', '19.99', '-0.1', '1.005', '100', '0.000001', '2.675']
+    for _ in range(3 if tier == 'quick' else 25):
+        digits = rng.randint(1, 6)
+        bounds.append(str(D(rng.randint(-10 ** (digits + 2), 10 ** (digits + 2))).scaleb(-digits)))
+    if tier == 'quick':
+        bounds = bounds[:5] + rng.sample(bounds[5:], 3)
+    for b in bounds:
+        bd = D(b)
+        ulp = D(1).scaleb(min(bd.as_tuple().exponent, 0))
+        for facet in ('ge', 'gt', 'le', 'lt'):
+            texpr = 'Decimal(%s=D(%r))' % (facet, b)
+            h = Harness(mk_type(texpr))
+            for name, vd in (('on-bound', bd), ('just-below', bd - ulp), ('just-above', bd + ulp), ('just-above-finer', bd + ulp / 1000)):
+                conforms = {'ge': vd >= bd, 'gt': vd > bd, 'le': vd <= bd, 'lt': vd < bd}[facet]
+                text = format(vd, 'f')
+                forms = [('text', Wv(text, text))]
+                f = float(text)
+                if D(repr(f)) == vd:            # the float the sender's library writes for this decimal reads back as it
+                    forms.append(('number', Wv(None, f)))
+                if vd == vd.to_integral_value():
+                    forms.append(('integer-number', Wv(None, int(vd))))
+                for fname, v in forms:
+                    for proto in PROTOS:
+                        for pos in ('top', 'nested', 'arr', 'att'):
+                            payload = ('items', [v]) if pos == 'arr' else ('val', v)
+                            expect(check, h, 'decimal-bound', 'Decimal+' + facet, texpr, '%s|as-%s' % (name, fname), proto, pos,
+                                   payload, conforms, vd, True)
+    check.sample({'family': 'decimal bounds as numbers', 'bounds': bounds[:6], 'forms': ['text', 'number']})
+
+
+ENUM_EXPR = 'Enum("red", "green", "Blue", type_name="Color")'
+ENUM_HOSTILE = ['Value', 'Attributes', 'Annotations', 'customize', 'validate_string', 'validate_native', '__doc__', '__class__',
+                'mro', '__values__', '__type_name__', '__namespace__', '__init__', '__dict__', '__module__', 'Empty',
+                'get_type_name', 'is_default', '__orig__', '__extends__', 'Red', 'RED', 'red ', ' red', 'blue', '0', 'red\n',
+                'redgreen', '']
+
+def family_enum(check, tier):
+    """enumerated types: exactly the declared values are accepted, and what the user function receives IS one of
+    the declared members; literals that are Python attribute names of the enum class (Value, Attributes, customize,
+    dunder names ...), case variants and padded values are refused - at every position and in every protocol"""
+    rng = check.rng
+    T = mk_type(ENUM_EXPR)
+    members = [getattr(T, v) for v in T.__values__]
+    hostile = list(ENUM_HOSTILE)
+    names = [n for n in dir(T) if n not in T.__values__ and n not in hostile]
+    hostile += rng.sample(names, min(len(names), 6 if tier == 'quick' else 40))
+    h = Harness(T)
+    for lit in list(T.__values__) + hostile:
+        want = lit in T.__values__
+        v = Wv(lit, lit)
+        shape = 'declared' if want else ('python-attribute-name' if hasattr(T, lit) and lit else 'undeclared')
+        for proto in PROTOS:
+            for pos in ('top', 'nested', 'arr', 'att'):
+                if lit.strip() != lit and proto in ('xml', 'soap11') and pos == 'att':
+                    continue          # attribute value normalisation by the XML parser changes the literal
+                payload = ('items', [v]) if pos == 'arr' else ('val', v)
+                expect(check, h, 'enum', 'Enum', ENUM_EXPR, '%s|%s' % (shape, lit if not want else 'value'), proto, pos, payload,
+                       want, NOCHECK, True, allowed=[getattr(T, lit)] if want else members)
+    check.sample({'family': 'enum', 'declared': list(T.__values__), 'hostile': hostile[:10]})
+
+
+XSI_TYPES = [
+    # (declared type, sibling customisation registered in the interface, unrelated registered types, out-of-facet, conforming)
+    ('Unicode(max_len=3, pattern="[a-z]+")', 'Unicode(max_len=100, type_name="LooseStr")', ['boolean', 'integer'],
+     [('abcdef', 'abcdef'), ('ABC', 'ABC')], [('abc', 'abc')]),
+    ('Integer(ge=0, le=9)', 'Integer(ge=-1000, le=1000, type_name="LooseInt")', ['string', 'boolean', 'decimal'],
+     [('500', 500), ('-1', -1)], [('5', 5)]),
+    ('Integer8', 'Integer8(type_name="OtherByte")', ['integer', 'string'], [('300', 300), ('-129', -129)], [('5', 5)]),
+    ('Decimal(ge=0, le=10)', 'Decimal(ge=-100, le=100, type_name="LooseDec")', ['double', 'string'],
+     [('10.5', _dec.Decimal('10.5'))], [('1.5', _dec.Decimal('1.5'))]),
+    ('Double(le=5.0)', 'Double(type_name="LooseDbl")', ['decimal', 'string'], [('5.5', 5.5)], [('1.5', 1.5)]),
+    ('Unicode(values=["red", "green"])', 'Unicode(type_name="AnyStr2")', ['boolean'], [('blue', 'blue')], [('red', 'red')]),
+    ('Unicode(min_len=4)', 'Unicode(min_len=1, type_name="ShortStr")', ['integer'], [('abc', 'abc')], [('abcd', 'abcd')]),
+    ('DateTime(ge=datetime.datetime(2020, 1, 1, tzinfo=utc))', 'DateTime(type_name="AnyDt")', ['date', 'string'],
+     [('2019-06-01T00:00:00Z', None)], [('2021-06-01T00:00:00Z', None)]),
+    ('Date(ge=datetime.date(2020, 1, 1))', 'Date(type_name="AnyDate")', ['dateTime', 'string'],
+     [('2019-06-01', _dt.date(2019, 6, 1))], [('2020-06-01', _dt.date(2020, 6, 1))]),
+    ('Time(le=datetime.time(17))', 'Time(type_name="AnyTime")', ['string'], [('18:00:00', _dt.time(18))], [('12:00:00', _dt.time(12))]),
+    (ENUM_EXPR, 'Unicode(type_name="AnyStr3")', ['string'], [('Value', None), ('blue', None)], [('red', None)]),
+]
+
+def family_xsi_type(check, tier):
+    """XML / SOAP: an xsi:type attribute on an element of a customised primitive - naming the schema type it is
+    built on, another customisation of the same primitive, or an unrelated registered type - never changes which
+    facets apply: an out-of-facet value is refused exactly as without the attribute (and as over JSON); a conforming
+    value is either refused (the tag is not acceptable) or read as the DECLARED type"""
+    rng = check.rng
+    for texpr, sibexpr, unrelated, bad, good in XSI_TYPES:
+        T = mk_type(texpr)
+        sib = mk_type(sibexpr)
+        h = Harness(T, extra_types=[sib])
+        base = getattr(T, '__orig__', None) or T
+        kinds = [('base', (base.get_namespace() if base.get_namespace() != 'tns' else TNS, base.get_type_name())),
+                 ('sibling', (TNS, sib.get_type_name()))] + [('unrelated-' + u, (XSD, u)) for u in unrelated]
+        if texpr == ENUM_EXPR:
+            kinds = kinds[1:]                 # the enum's own name is its only schema type
+        tdesc = texpr.split('(')[0] + '+facets'
+        for kind, qn in kinds:
+            if qn[0] not in (XSD, TNS):
+                continue
+            for vals, conforming in ((bad, False), (good, True)):
+                for text, native in vals:
+                    v = Wv(text, NO, xsi=qn)
+                    for proto in ('xml', 'soap11'):
+                        for pos in ('top', 'nested', 'arr', 'narr', 'multi', 'nmulti'):
+                            payload = ('items', [v]) if pos in ('arr', 'narr', 'multi', 'nmulti') else ('val', v)
+                            expect(check, h, 'xsi-type', tdesc, texpr, 'xsi-%s|%s' % (kind, 'conforming' if conforming else 'out-of-facet'),
+                                   proto, pos, payload, conforming, NOCHECK if native is None else native, not conforming,
+                                   extra={'extra_types': [sibexpr]})
+            # the reference: the same out-of-facet values without the attribute, over XML and JSON
+            for text, native in bad:
+                for proto in ('xml', 'json'):
+                    expect(check, h, 'xsi-type', tdesc, texpr, 'no-xsi-type|out-of-facet', proto, 'top',
+                           ('val', Wv(text, native if isinstance(native, (int, float, str)) else text)), False, NOCHECK, True)
+    check.sample({'family': 'xsi:type on customised primitives', 'types': [x[0] for x in XSI_TYPES][:5],
+                  'kinds': ['base schema type', 'sibling customisation', 'unrelated type']})
+
+
+DEFAULT_TYPES = [('Integer', '5', 5), ('Unicode', '"dflt"', 'dflt'), ('Decimal', 'D("1.5")', _dec.Decimal('1.5')), ('Boolean', 'True', True),
+                 ('Double', '2.5', 2.5), ('Integer8', '7', 7), ('Date', 'datetime.date(2020, 1, 1)', _dt.date(2020, 1, 1)),
+                 ('DateTime', 'datetime.datetime(2020, 1, 1, tzinfo=utc)', d_(2020, 1, 1)), ('Unicode(min_len=2)', '"dflt"', 'dflt')]
+
+def family_null_default(check, tier):
+    """nullability does not depend on a declared default: an explicit null (xsi:nil, JSON null, YAML ~, MessagePack nil)
+    is accepted iff the type is nillable - with or without default=..., with XmlDocument(replace_null_with_default=)
+    True or False - and what arrives is None or the default, never something else; an absent member is accepted iff
+    min_occurs is 0.  Every protocol, top-level / nested / attribute / array item"""
+    rng = check.rng
+    types = DEFAULT_TYPES if tier != 'quick' else DEFAULT_TYPES[:4] + rng.sample(DEFAULT_TYPES[4:], 2)
+    for tbase, dexpr, dval in types:
+        for has_default in (True, False):
+            for nill in (True, False):
+                for mino in (0, 1):
+                    kw = 'nillable=%s, min_occurs=%d%s' % (nill, mino, ', default=%s' % dexpr if has_default else '')
+                    full = tbase + ('(' if '(' not in tbase else '.customize(') + kw + ')'
+                    allowed = [None, dval] if has_default else [None]
+                    tdesc = tbase.split('(')[0] + ('+default' if has_default else '')
+                    for repl in (True, False):
+                        h = Harness(mk_type(full), xml_kwargs={'replace_null_with_default': repl})
+                        protos = ('xml', 'soap11') if not repl else PROTOS
+                        ex = {'xml_kwargs': {'replace_null_with_default': repl}}
+                        for proto in protos:
+                            al = [None] if (proto in ('xml', 'soap11') and not repl) else allowed
+                            for pos in ('top', 'nested', 'att'):
+                                expect(check, h, 'null-default', tdesc, full, 'null|nillable=%s|replace=%s' % (nill, repl), proto, pos,
+                                       ('null',), nill, NOCHECK, True, extra=ex, allowed=al)
+                                expect(check, h, 'null-default', tdesc, full, 'absent|min_occurs=%d|replace=%s' % (mino, repl), proto, pos,
+                                       ('absent',), mino == 0, NOCHECK, True, extra=ex, allowed=allowed)
+                            if mino == 0:
+                                expect(check, h, 'null-default', tdesc, full, 'null-item|nillable=%s|replace=%s' % (nill, repl), proto, 'arr',
+                                       ('items', [NULL]), nill, NOCHECK, True, extra=ex, allowed=al)
+    check.sample({'family': 'null x default x replace_null_with_default', 'types': [t[0] for t in DEFAULT_TYPES[:5]]})
+
+
 def run(check):
     check.rule = ('generated one-argument services around each type under test (every fixed-width integer class, '
                   'arbitrary-size integers, Unicode, Decimal, Double, Boolean, DateTime, Date, Time, Duration, Uuid, Enum with '
@@ -1417,6 +1772,10 @@ def run(check):
         'translator harness/translate/facettypes.py (validate_string / validate_native of ModelBase, SimpleModel, Unicode, '
         'DateTime, Time and re_match_with_span -> Gen/FacetTypes.v; the statement shapes it pins: the naive-value rule of '
         'DateTime.validate_native and the fullmatch branch of re_match_with_span)',
+        'translator harness/translate/c05steps.py (statement-by-statement: the xsi:nil block of XmlDocument.from_element, '
+        '_get_xsi_target, EnumBase.validate_string, enum_base_from_bytes, enum_from_element; and what Decimal() is applied to in '
+        'decimal_from_unicode when the document carries a number -> Gen/C05Steps.v)',
+        'the Decimal() / str(Decimal) model of coq/Wire/Decimal.v with its round-trip lemma (C02) as the reader of the Decimal paths',
         'the Python reference predicates ref_conforms_* and the expectation tables of harness/c05.py (the specification as '
         'used by the direct oracle); lxml XMLSchema as the judge of lexical validity',
         'the date/time readers and printers of coq/C08/DtModel.v (tied and proved by C08) as the from_unicode of the date/time paths',
@@ -1428,15 +1787,22 @@ def run(check):
         'translator checks the class defaults)',
         'range bounds of DateTime are timezone-aware as the documentation demands (a naive bound raises TypeError in Python); '
         'UTC offsets are whole minutes; spyne.LOCAL_TZ has a fixed offset (read by the translator)',
-        'Decimal and Double ranges, Boolean, Duration, Uuid, Enum and the alternative document forms are decided by the '
+        'C05_decimal_number_is_text assumes CPython\'s shortest repr: str() of the float a sender writes for a decimal of at most '
+        '15 significant digits denotes that decimal (the oracle only sends numbers for which D(repr(float(text))) == D(text)); '
+        'Decimal literals with underscores, NaN and Infinity are outside the Decimal() model (they are refused by the code and '
+        'exercised by the oracle)',
+        'xsi_target is proved over an abstract description of the class pair (same original class, complex / array, subclass, '
+        'names); the correspondence computes that description from real classes',
+        'Double ranges, Boolean, Duration, Uuid and the alternative document forms are decided by the '
         'direct oracle only; Decimal total_digits / fraction_digits are not part of the property text and are not checked',
         'HttpRpc is driven through WSGI GET query strings only (werkzeug is absent: no form bodies)']
-    check.regen(['numtypes', 'facettypes'])
+    check.regen(['numtypes', 'facettypes', 'c05steps'])
     check.check_sources()
     check.prove('Props.C05', THEOREMS)
     family_leaf_corr(check, check.tier)
     family_text_corr(check, check.tier)
     family_range_corr(check, check.tier)
+    family_step_corr(check, check.tier)
     family_int_e2e(check, check.tier)
     family_text_e2e(check, check.tier)
     family_occurs(check, check.tier)
@@ -1447,6 +1813,10 @@ def run(check):
     family_null(check, check.tier)
     family_array_occurs(check, check.tier)
     family_null_members(check, check.tier)
+    family_decimal_bounds(check, check.tier)
+    family_enum(check, check.tier)
+    family_xsi_type(check, check.tier)
+    family_null_default(check, check.tier)
     lib.flush_correspondences(check)
     return check.finish()
 
@@ -1458,7 +1828,8 @@ def replay(check, path):
     if 'type_expr' in rp and 'payload' in rp:
         # families forms / null / array-occurs: the type, the array and the request are expressions over ns()
         T = mk_type(rp['type_expr'])
-        h = Harness(T, array=mk_type(rp['array_expr']) if rp.get('array_expr') else None)
+        h = Harness(T, array=mk_type(rp['array_expr']) if rp.get('array_expr') else None,
+                    extra_types=[mk_type(e) for e in rp.get('extra_types', [])], xml_kwargs=rp.get('xml_kwargs'))
         payload = eval(rp['payload'], dict(ns()))
         print('now:', h.run(rp['protocol'], rp['position'], payload))
     elif 'protocol' in rp and 'class' in rp:
